@@ -958,8 +958,9 @@ class Deviation:
 
 
 class Product:
-    def __init__(self, ex: Extractor, schema: Schema, marks_expected: dict | None = None, skip_sinks: frozenset = frozenset()):
+    def __init__(self, ex: Extractor, schema: Schema, marks_expected: dict | None = None, skip_sinks: frozenset = frozenset(), region: frozenset | None = None):
         self.skip_sinks = frozenset(skip_sinks)
+        self.region = frozenset(region) if region else None  # character-data expectations apply only below these kinds
         self.ex = ex
         self.schema = schema
         self.reg: list = []  # registry of act lists (watcher bodies)
@@ -991,7 +992,7 @@ class Product:
                     out["tail"] += mult
                 else:
                     out["text"] += mult
-                    out["watchers"][("subtree",)] += mult
+                    out["watchers"][("subtree", out["outer"])] += mult
                 out["sites"].add(a.site)
             elif isinstance(a, Mark):
                 out["marks"][a.name] += mult
@@ -1005,7 +1006,7 @@ class Product:
                     axis = "desc"
                 if axis == "path2":
                     raise AnalysisError("treewalk: path2 outside list expansion")
-                out["watchers"][(axis, a.pred, self.rid(a.body), a.var, ky, a.site)] += mult
+                out["watchers"][(axis, a.pred, self.rid(a.body), a.var, ky, a.site, out["outer"])] += mult
             elif isinstance(a, Call):
                 body = self.ex.function(a.fi, a.param, a.cenv)
                 self.expand(body, kind, a.param, ky if a.propagate_yield else None, mult, out, depth + 1)
@@ -1021,14 +1022,25 @@ class Product:
 
     @staticmethod
     def _new_out():
-        return {"text": 0, "tail": 0, "marks": Counter(), "watchers": Counter(), "sites": set()}
+        return {"text": 0, "tail": 0, "marks": Counter(), "watchers": Counter(), "sites": set(), "outer": False}
+
+    @staticmethod
+    def _merge(dst, src, as_outer: bool):
+        """Fold the result of one watcher's expansion into the node result; reads made on behalf of an enclosing cell go to *_outer."""
+        sfx = "_outer" if as_outer else ""
+        dst["text" + sfx] = dst.get("text" + sfx, 0) + src["text"]
+        dst["tail" + sfx] = dst.get("tail" + sfx, 0) + src["tail"]
+        dst["marks"].update(src["marks"])
+        dst["sites"] |= src["sites"]
+        for w, m in src["watchers"].items():
+            dst["watchers"][w[:-1] + (as_outer,)] += m
 
     def run(self, entry: FuncInfo, param: str, cenv: tuple = ()):
         sch = self.schema
         root = sch.kinds[sch.root]
         out = self._new_out()
         self.expand(self.ex.function(entry, param, cenv), root, param, None, 1, out)
-        start = (root.name, self._freeze(out["watchers"]))
+        start = (root.name, self._freeze(out["watchers"]), self.region is None or root.name in self.region)
         seen = {start: None}
         q = deque([start])
         devs: list[Deviation] = []
@@ -1037,27 +1049,36 @@ class Product:
         while q:
             stt = q.popleft()
             states += 1
-            kname, ws = stt
+            kname, ws, inreg = stt
             k = sch.kinds[kname]
             for cname in k.children:
                 c = sch.kinds[cname]
                 o = self._new_out()
+                enters_cell = self.region is not None and cname in self.region
                 for w, m in ws:
+                    outer = w[-1]
+                    t = self._new_out()
+                    t["outer"] = outer
                     if w[0] == "subtree":
-                        o["text"] += m
-                        o["tail"] += m
-                        o["watchers"][w] += m
-                        continue
-                    axis, pred, bid, var, ky, site = w
-                    if pred(c.tag):
-                        self.expand(self.reg[bid], c, var, ky, m, o)
-                    if axis == "desc":
-                        o["watchers"][w] += m
-                nxt = (cname, self._freeze(o["watchers"]))
+                        t["text"] += m
+                        t["tail"] += m
+                        t["watchers"][w] += m
+                    else:
+                        axis, pred, bid, var, ky, site, _o = w
+                        if pred(c.tag):
+                            self.expand(self.reg[bid], c, var, ky, m, t)
+                        if axis == "desc":
+                            t["watchers"][w] += m
+                    # entering a cell: only the expansion that enumerates this cell (it carries the mark) works for it;
+                    # every other walker active here belongs to an enclosing cell or table
+                    as_outer = (not t["marks"]) if enters_cell else outer
+                    self._merge(o, t, as_outer)
+                creg = inreg or (self.region is not None and cname in self.region)
+                nxt = (cname, self._freeze(o["watchers"]), creg)
                 path = None
                 for what in ("text", "tail"):
                     exp = getattr(c, what)
-                    if exp is None:
+                    if exp is None or not (creg if what == "text" else inreg):
                         continue
                     leaves += 1
                     cnt = min(o[what], 2)
@@ -1066,11 +1087,11 @@ class Product:
                         bad = "lost"
                     elif exp == "vis" and cnt > 1:
                         bad = "duplicated"
-                    elif exp == "excl" and cnt > 0:
+                    elif exp == "excl" and cnt + o.get(what + "_outer", 0) > 0:
                         bad = "leaked"
                     if bad:
                         path = path or self._path(seen, stt) + [c]
-                        devs.append(Deviation(bad, c, what, o[what], path, sorted(o["sites"])))
+                        devs.append(Deviation(bad, c, what, o[what] + (o.get(what + "_outer", 0) if bad == "leaked" else 0), path, sorted(o["sites"])))
                 for mname, kinds in self.marks_expected.items():
                     if cname in kinds:
                         leaves += 1
